@@ -37,6 +37,7 @@ class Ctx:
     rule_texts: dict[str, str] = field(default_factory=dict)
     counters: dict[str, int] = field(default_factory=dict)
     notes: list[str] = field(default_factory=list)
+    rule_errors: list[str] = field(default_factory=list)
     _keys: set[str] = field(default_factory=set)
 
     def ob(self, rule: str, key: str, ok: bool, site: str, expect: Any, got: Any, note: str = '',
@@ -151,6 +152,10 @@ def finish(ctx: Ctx, t0: float, level_explanation: str, assumptions: list[str], 
         os.makedirs(os.path.join(VERIF, 'evidence'), exist_ok=True)
         with open(os.path.join(VERIF, 'evidence', f'{ctx.prop}.json'), 'w', encoding='utf-8') as fh:
             json.dump(ev, fh, indent=1)
+    for e in ctx.rule_errors:
+        print(f'ANALYSIS-ERROR: property={ctx.prop} {e}')
     print(f'{ctx.prop}: {n_ob} obligations over {len(ctx.rules_run)} rules, {n_ok} hold, {len(known_hits)} known '
-          f'finding(s), {len(violations)} violation(s); {wall:.2f}s')
-    return 1 if violations else 0
+          f'finding(s), {len(violations)} violation(s), {len(ctx.rule_errors)} rule(s) not evaluable; {wall:.2f}s')
+    if violations:
+        return 1
+    return 2 if ctx.rule_errors else 0
